@@ -39,6 +39,10 @@ CLAIMED = {
             "For each enumerated layer configuration (all five bias settings, stride 1/2) z3 proves every output block equals the defining sum plus "
             "the stated bias rule for ALL real weights, biases, inputs; output keys/channels/shape equal the reachable requested targets.",
             "Reals; same bounds as C06; reference convolution shared with C04.", "4/C11"),
+    "C12": (JX, "enumerated construction histories executed inside the traced function; symbolic execution of the real MultiImage operators; z3 (QF_LRA/NRA); __eq__ by scripted-allclose path exploration + z3 propositional equivalence",
+            "For each enumerated pair of construction histories and insertion orders z3 proves (a op b)[t] = a[t] op b[t] for ALL block values and scalars; "
+            "mixed type sets are rejected; __eq__'s truth table over all allclose outcomes equals the type-wise conjunction.",
+            "Reals; tiny blocks (N=2); histories of length <=2 sampled; allclose itself is stubbed for __eq__.", "4/C12"),
 }
 
 NOT_YET = {}
